@@ -333,9 +333,9 @@ def judge_geo2(case):
 # single-fault corruptions
 # ---------------------------------------------------------------------------
 GEO1_FAULTS = ["drop:sensors names", "drop:sensors coordinates", "drop:sensors directions", "unknown-sheet", "coord-2cols", "coord-4cols", "dir-shape-rows", "dir-shape-cols",
-               "bgnodes-cols", "bglines-cols", "bgsurf-cols", "bglines-cols-nonodes", "bgsurf-cols-nonodes", "index-mismatch", "name-missing"]
+               "bgnodes-cols", "bglines-cols", "bgsurf-cols", "bglines-cols-nonodes", "bgsurf-cols-nonodes", "bgsurf-cols-nolines", "index-mismatch", "name-missing"]
 GEO2_FAULTS = ["drop:sensors names", "drop:points coordinates", "drop:mapping", "unknown-sheet", "points-2cols", "mapping-shape", "sign-shape", "bgnodes-cols", "bglines-cols",
-               "bgsurf-cols", "bglines-cols-nonodes", "bgsurf-cols-nonodes", "name-missing-from-mapping", "cstr-unknown-column", "cstr-unused-row"]
+               "bgsurf-cols", "bglines-cols-nonodes", "bgsurf-cols-nonodes", "bgsurf-cols-nolines", "name-missing-from-mapping", "cstr-unknown-column", "cstr-unused-row"]
 
 
 def _corrupt1(d, names, fault, rng):
@@ -361,6 +361,11 @@ def _corrupt1(d, names, fault, rng):
         d["BG lines"] = pd.DataFrame([[1, 2, 1]], index=[1])
     elif fault == "bgsurf-cols":
         d["BG nodes"] = pd.DataFrame([[0.0, 1.0, 0.0], [1.0, 2.0, 0.0]], index=[1, 2])
+        d["BG surfaces"] = pd.DataFrame([[1, 2]], index=[1])
+    elif fault == "bgsurf-cols-nolines":
+        # nodes given, lines sheet left out, surfaces sheet with the wrong column count
+        d["BG nodes"] = pd.DataFrame([[0.0, 1.0, 0.0], [1.0, 2.0, 0.0], [1.0, 0.0, 0.0]], index=[1, 2, 3])
+        d.pop("BG lines", None)
         d["BG surfaces"] = pd.DataFrame([[1, 2]], index=[1])
     elif fault in ("bglines-cols-nonodes", "bgsurf-cols-nonodes"):
         # the optional background-nodes sheet is left out, a lines / surfaces sheet with the wrong column count is given
@@ -396,6 +401,10 @@ def _corrupt2(d, names, fault, rng):
         d["sensors sign"] = pd.DataFrame(np.ones((len(d["points coordinates"]) + 1, 3)), columns=XYZ)
     elif fault == "bgnodes-cols":
         d["BG nodes"] = pd.DataFrame([[0.0, 1.0], [1.0, 2.0]], index=[1, 2])
+    elif fault == "bgsurf-cols-nolines":
+        d["BG nodes"] = pd.DataFrame([[0.0, 1.0, 0.0], [1.0, 2.0, 0.0], [1.0, 0.0, 0.0]], index=[1, 2, 3])
+        d.pop("BG lines", None)
+        d["BG surfaces"] = pd.DataFrame([[1, 2]], index=[1])
     elif fault in ("bglines-cols-nonodes", "bgsurf-cols-nonodes"):
         d.pop("BG nodes", None)
         if fault.startswith("bglines"):
